@@ -144,6 +144,36 @@ Proof. vm_compute. repeat split. Qed.
 Example C01_unencodable : encode_row 0 [MInt 18446744073709551616] = Raise TypeError.
 Proof. reflexivity. Qed.
 
+(* ---- text is stored verbatim (round 4).  Text is a list of UTF-8 bytes in the model and [pack] copies it: no
+   normalisation (NFC/NFD/NFKC), case mapping or trimming is applied on the way in or out.  Stated as injectivity:
+   two rows that differ in anything - e.g. only in the normal form of one text - never share a record. ---- *)
+Theorem C01_encode_injective :
+  forall (ts ts' : N) (row row' : list mval) (r : bytes),
+  encode_row ts row = Ok r -> encode_row ts' row' = Ok r -> row = row'.
+Proof. exact encode_injective. Qed.
+Print Assumptions C01_encode_injective.
+
+(* "e" + COMBINING ACUTE (not NFC), its composed form U+00E9, ANGSTROM SIGN U+212B, conjoining jamo U+1112 U+1161 U+11AB,
+   q + U+0307 + U+0323 (marks not in canonical order), sharp s, final sigma, " a " with spaces at both ends: every one
+   comes back byte for byte, at the top level, nested, as a map value and as a map key; and the composed / decomposed
+   spellings of one letter get different records. *)
+Definition nv_texts : list bytes :=
+  [ [101; 204; 129]; [195; 169]; [226; 132; 171]; [225; 132; 146; 225; 133; 161; 225; 134; 171];
+    [113; 204; 135; 204; 163]; [195; 159]; [207; 130]; [32; 97; 32] ].
+
+Example C01_text_verbatim :
+  forallb (fun t =>
+             let row := [MStr t; MArr [MStr t]; MMap [(t, MStr t)]] in
+             match encode_row 7 row with
+             | Ok r => match decode_row r with
+                       | Ok cs => cells_match cs (map OVal row)
+                       | Raise _ => false
+                       end
+             | Raise _ => false
+             end) nv_texts = true /\
+  encode_row 7 [MStr [101; 204; 129]] <> encode_row 7 [MStr [195; 169]].
+Proof. split; [vm_compute; reflexivity | vm_compute; discriminate]. Qed.
+
 (* ---- every schedule (round 2): Row.as_bytes run by any number of threads, switched between any two of its
    statements.  [run step fin sched sh th] gives one turn to each thread id of [sched] in order; [enc_step] is
    as_bytes statement by statement (Model/C01_Sched.v); [Sh] is whatever module-level state exists - as_bytes
